@@ -262,4 +262,21 @@ PROPS['C15'] = {
     'assumptions': [CORR],
 }
 
+PROPS['C20'] = {
+    'lean_targets': ['EmmetProps.C20'],
+    'lean_imports': ['EmmetProps.C20'],
+    'theorems': [
+        thm('EmmetProps.C20_lookup', 'arbitrary dictionaries and layer lists: lookup after merging = value in the most specific present layer that mentions the key; other layers leave it untouched'),
+        thm('EmmetProps.C20_options', 'every option key, every user / global config: effective value = most specific of the six documented layers (tables regenerated from config.py)'),
+        thm('EmmetProps.C20_snippets', 'same for snippets'), thm('EmmetProps.C20_variables', 'same for variables'),
+        thm('EmmetProps.C20_unknown_syntax', 'a syntax / type name that is not in SYNTAX_CONFIG contributes an empty built-in layer'),
+    ],
+    'domains': ['dom_config'],
+    'rule': 'exhaustive: every known syntax of both types plus unknown names, a syntax named like a type, and absent type / syntax x all 2^3 subsets of the caller-controlled layers (global type, global syntax, user) x option / snippet / variable probe keys chosen so that the built-in type and syntax layers define some of them and not others; observed on the resolved Config, through expand (planted snippets), with deep snapshots of the built-in tables and of the caller\'s dictionaries before / after; non-trivial = at least one caller layer present; distinct = distinct (config, global config)',
+    'explanation': 'The order theorem is proved for the model of merged_data over the regenerated tables; Config.__init__ (type / syntax defaults) and the no-mutation clause are decided by correspondence + oracle.',
+    'level_text': 'Lean 4 theorems: dictionary layering = "most specific layer wins" for arbitrary layers, instantiated to the six documented layers over the regenerated tables; unknown names contribute nothing. No-mutation of built-in tables / caller dictionaries: measured on the implementation on every run (the alias-free model cannot mutate).',
+    'level_note': 'Trusted: Lean kernel + standard axioms; translator (DEFAULT_OPTIONS, SYNTAX_CONFIG by evaluation); model of Config.__init__ / merged_data tied by correspondence on the resolved values. Option values restricted to bool / int / str / list of str / dict of str.',
+    'assumptions': [CORR],
+}
+
 NOT_APPLICABLE = {}
